@@ -70,7 +70,7 @@ single_index_syntax = subject('subject') + c + index_settings('settings')[0, 1]
 index = _c + (single_index_syntax ^ composite_index_syntax) + c
 
 indexes = (
-    pp.CaselessLiteral('indexes').suppress() + _
+    pp.CaselessKeyword('indexes').suppress() + _
     - pp.Suppress('{')
     - index[1, ...] + _
     + pp.Suppress('}')
